@@ -35,7 +35,8 @@ NUMERIC = ["equal_to", "not_equal_to", "less_than", "greater_than", "less_than_o
 DTYPE_FNS = ["equal_to", "not_equal_to", "in_", "not_in"]
 TYPE_NAMES = ["int", "float", "str", "list", "dict", "bool", "path"]
 PATHLIKE_LITERALS = [{"path": ["A"]}, {"path": 3}, {"path.length": ["a"]}, {"Path": ["A"]}, {"PATH.first": [1]},
-                     {"path": ["a"], "b": 2}, {"path.x.y.z": 1}, {"a": {"path": ["q"]}}, {"pathway": 1}, {"path.": []}]
+                     {"path": ["a"], "b": 2}, {"path.x.y.z": 1}, {"a": {"path": ["q"]}}, {"pathway": 1}, {"path.": []}, {"paths": [1]}, {"pathname": "x"},
+                     {"path_to": ["a"]}]
 
 
 def json_plain(rng, pool, depth=1):
@@ -302,8 +303,11 @@ def run(case, ctx):
         v1, v2 = verdict(c), verdict(c2)
         if v1 != v2:
             ctx.violate(f"C11/behaviour-rule/{key_tail}", f"rule verdicts differ: original {v1}, rebuilt {v2}; json: {text}")
+    cj = canon(j)
+    _scribble(j)  # the caller may do what it likes with the returned data
     ok, j4 = call(c.to_json_like)
-    if not ok or canon(j4) != canon(j):
+    j = j2  # (an untouched equal copy, for the comparisons below)
+    if not ok or canon(j4) != cj:
         ctx.violate(f"C11/not-stable-after-use/{key_tail}", f"serialising the original again after it was used gives {j4!r}, first {j!r}")
     ok, j3 = call(c2.to_json_like)
     if not ok or canon(j3) != canon(j):
@@ -318,3 +322,14 @@ def run(case, ctx):
     if ak not in ("scalar", "none", "as-is", "leaf") or t["c"] != "leaf":
         ctx.mark_nontrivial(repr(t))
         ctx.sample({"term": t, "json": j}, cap=5)
+
+
+def _scribble(x):
+    if type(x) is dict:
+        for v in list(x.values()):
+            _scribble(v)
+        x["scribbled"] = True
+    elif type(x) is list:
+        for v in x:
+            _scribble(v)
+        x.append("scribbled")
